@@ -32,6 +32,8 @@ func main() {
 		}
 	case "cases":
 		runCases(os.Args[2:])
+	case "parse1":
+		parse1Main()
 	default:
 		usage()
 	}
